@@ -63,7 +63,8 @@ pub fn run_c07(ctx: &Ctx) -> i32 {
                 o => rep.inconclusive(format!("depth probe {name} in {} did not complete: {:?}", spec_name(*s), o.to_json().to_string())),
             }
             // the same probe under the monitoring inspector: depth pairing on ~1025 nested frames
-            if j % 3 == 0 {
+            // and on every sibling kind (this is what makes the frame-end floors deterministic)
+            {
                 let mut r2 = Report::new();
                 check_case(case, &mut r2, false, None);
                 rep.merge_light(r2);
